@@ -6,6 +6,16 @@
 // invariants); the verdict handed to the model for every delivered message is the HARNESS's own
 // (stdlib) judgement, never the client's. Model-independent monitors state C19 / C21 / C23 on what
 // the application observes and on what the client puts on the wire.
+//
+// Two dimensions of the environment are the engine's, not the Go scheduler's: (i) the CALLERS of
+// Recv — long-lived contexts, contexts that are already cancelled / past their deadline when the
+// call is made, contexts cancelled concurrently with the delivery of a message, deadlines of a few
+// microseconds in polling loops — and what each call RETURNED (logged into the trace as recvret /
+// recvend and validated against SigC.recvIter); (ii) the client's WRITES to the relay — a write
+// of a chosen request kind (send / ack / clear) can be parked inside the stream's Send (the
+// client's main loop is then between its critical section and the return of the write) while the
+// relay delivers Opened / Closed / Ack / Clear and waits, by hook event, until the client has
+// processed them; the write is then released into an honest relay that drops stale-epoch requests.
 package main
 
 import (
@@ -13,6 +23,7 @@ import (
 	"context"
 	"fmt"
 	"io"
+	"sort"
 	"strconv"
 	"strings"
 	"sync"
@@ -60,8 +71,86 @@ func (r *relayStream) failNow() { r.failOnce.Do(func() { close(r.fail) }) }
 
 func (r *relayStream) Context() context.Context { return r.ctx }
 func (r *relayStream) Send(m *signaling.SessionRequest) error {
+	// a gated write: the request is on its way but the write has not returned (back-pressure);
+	// the relay sees it only when the gate opens
+	if g := r.w.takeGate(reqKind(m), m); g != nil {
+		close(g.held)
+		select {
+		case <-g.release:
+		case <-r.ctx.Done():
+			return context.Canceled
+		}
+	}
 	r.w.onRequest(r, m)
 	return nil
+}
+
+// reqKind names the kind of a client request.
+func reqKind(m *signaling.SessionRequest) string {
+	switch m.GetBody().(type) {
+	case *signaling.SessionRequest_Init:
+		return "init"
+	case *signaling.SessionRequest_SendMsg:
+		return "send"
+	case *signaling.SessionRequest_AckMsg:
+		return "ack"
+	case *signaling.SessionRequest_ClearMsg:
+		return "clear"
+	}
+	return "other"
+}
+
+// wgate parks the next client->relay write of one request kind inside the stream's Send.
+type wgate struct {
+	kind    string
+	held    chan struct{} // closed once a write is parked
+	release chan struct{}
+	relOnce sync.Once
+	taken   bool
+	req     *signaling.SessionRequest
+}
+
+func (g *wgate) open() { g.relOnce.Do(func() { close(g.release) }) }
+
+// waitHeld waits until a write is parked at the gate.
+func (g *wgate) waitHeld(d time.Duration) bool {
+	select {
+	case <-g.held:
+		return true
+	case <-time.After(d):
+		return false
+	}
+}
+
+// armGate arms a gate for the next write of the kind (one gate at a time).
+func (w *world) armGate(kind string) *wgate {
+	g := &wgate{kind: kind, held: make(chan struct{}), release: make(chan struct{})}
+	w.mtx.Lock()
+	w.gate = g
+	w.mtx.Unlock()
+	return g
+}
+
+// disarm removes the gate if no write was parked at it and opens it in any case.
+func (w *world) disarm(g *wgate) {
+	w.mtx.Lock()
+	if w.gate == g {
+		w.gate = nil
+	}
+	w.mtx.Unlock()
+	g.open()
+}
+
+func (w *world) takeGate(kind string, m *signaling.SessionRequest) *wgate {
+	w.mtx.Lock()
+	defer w.mtx.Unlock()
+	g := w.gate
+	if g == nil || g.taken || g.kind != kind {
+		return nil
+	}
+	g.taken, g.req = true, m
+	w.gate = nil
+	return g
 }
 func (r *relayStream) Recv() (*signaling.SessionResponse, error) {
 	select {
@@ -151,11 +240,55 @@ type world struct {
 	tkr        string // the tracker of this scenario's client (hook lines of other trackers are not ours)
 	streams    []*relayStream
 	inj        map[uint64]*injected // by outer message seqno (unique per scenario)
-	auto       string               // relay behaviour on a SendMsg request: "", "ack", "reopen-then-ack"
+	auto       string               // relay behaviour on a SendMsg request: "", "ack" (honest: drop stale epochs, acknowledge the rest), "skip-one", "reopen-then-ack"
 	epoch      uint64
 	acksIssued map[uint64]bool
 	sent       map[uint64]bool // seqnos the client transmitted
 	wire       []wireReq
+	gate       *wgate // armed gate on the client's writes (nil: writes return at once)
+	dropped    int    // stale-epoch SendMsg requests the honest relay dropped
+}
+
+// note appends a line of the ENGINE's own observations (what a Recv call returned) to the trace.
+func (w *world) note(kind string, q uint64) {
+	w.mtx.Lock()
+	w.log = append(w.log, fmt.Sprintf("ev=%s tkr=%s q=%d", kind, w.tkr, q))
+	w.mtx.Unlock()
+}
+
+// mark is the current length of the hook log.
+func (w *world) mark() int {
+	w.mtx.Lock()
+	defer w.mtx.Unlock()
+	return len(w.log)
+}
+
+// waitHook waits until a hook line of this scenario's tracker logged at or after position `from`
+// satisfies pred ("the client has processed it").
+func (w *world) waitHook(from int, d time.Duration, pred func(line string) bool) bool {
+	deadline := time.Now().Add(d)
+	for {
+		w.mtx.Lock()
+		for i := from; i < len(w.log); i++ {
+			if kvOf(w.log[i], "tkr") == w.tkr && pred(w.log[i]) {
+				w.mtx.Unlock()
+				return true
+			}
+		}
+		from = len(w.log)
+		w.mtx.Unlock()
+		if time.Now().After(deadline) {
+			return false
+		}
+		time.Sleep(50 * time.Microsecond)
+	}
+}
+
+// hookIs matches a hook line by event kind and (if want != "") its a= field.
+func hookIs(ev, want string) func(string) bool {
+	return func(line string) bool {
+		return strings.HasPrefix(line, "ev="+ev+" ") && (want == "" || kvOf(line, "a") == want)
+	}
 }
 
 func (w *world) sink(line string) {
@@ -225,9 +358,22 @@ func (w *world) onRequest(r *relayStream, m *signaling.SessionRequest) {
 		w.mtx.Unlock()
 		switch auto {
 		case "ack":
-			if m.GetSessionSeqno() == w.epoch {
+			// the honest relay: a request stamped with another epoch than the session's is dropped
+			w.mtx.Lock()
+			cur := m.GetSessionSeqno() == w.epoch
+			if !cur {
+				w.dropped++
+			}
+			w.mtx.Unlock()
+			if cur {
 				w.respond(r, &signaling.SessionResponse{Body: &signaling.SessionResponse_AckMsg{AckMsg: q}})
 			}
+		case "skip-one":
+			// the relay received the message but its acknowledgement is not coming (yet); later
+			// transmissions are served
+			w.mtx.Lock()
+			w.auto = "ack"
+			w.mtx.Unlock()
 		case "reopen-then-ack":
 			// the session is re-opened while the send is in flight; the client must re-transmit
 			w.mtx.Lock()
@@ -284,6 +430,14 @@ func (w *world) canonical() string {
 	var toks []string
 	for _, line := range lines {
 		ev := strings.TrimPrefix(strings.SplitN(line, " ", 2)[0], "ev=")
+		switch ev { // the engine's own observations of the Recv calls
+		case "recvret":
+			toks = append(toks, "recvret,q="+kvOf(line, "q"))
+			continue
+		case "recvend":
+			toks = append(toks, "recvend")
+			continue
+		}
 		ti := strings.Index(line, " open=")
 		tr := line[ti:]
 		snap := fmt.Sprintf("o%s:%s:%s:%s:%s:%s:%s", kvOf(tr, "open"), kvOf(tr, "out"), b01(kvOf(tr, "sent")), b01(kvOf(tr, "acked")), b01(kvOf(tr, "cancel")), kvOf(tr, "recv"), b01(kvOf(tr, "proc")))
@@ -414,29 +568,161 @@ func (e *engine) scenario(kind string, n int) {
 	}
 	startSend := func(timeout time.Duration) { startSendOpt(timeout, false) }
 	forceRef := false // true: the next Recv calls go through ClientPeerRef.Recv (the whole SessionMsg is handed over)
-	startRecv := func(timeout time.Duration) {
-		viaSession := e.rng.Intn(2) == 0 && !forceRef
-		apps.Add(1)
-		go func() {
-			defer apps.Done()
-			rctx, rcancel := context.WithTimeout(ctx, timeout)
-			defer rcancel()
-			if viaSession {
-				data, err := sess.Recv(rctx)
-				if err == nil {
-					rmtx.Lock()
-					receivedData = append(receivedData, data)
-					rmtx.Unlock()
-				}
-				return
-			}
-			m, err := ref.Recv(rctx)
-			if err == nil && m != nil {
+	// ---- the callers of Recv ----
+	// Every Recv call of the scenario goes through recvCall: it records what the call RETURNED (only
+	// a nil-error return hands a message to the application) and logs it into the trace. All calls
+	// are cancelled and awaited before the verdict, so "returned" is complete when the monitors run.
+	var recvWG sync.WaitGroup
+	var recvCancels []context.CancelFunc
+	var recvCanceled, recvCalls int
+	var returnedSeq []uint64 // sequence numbers of the messages returned by Recv calls (nil error)
+	recvCall := func(rctx context.Context, viaSession bool) bool {
+		var q uint64
+		if viaSession {
+			data, err := sess.Recv(rctx)
+			if err == nil {
 				rmtx.Lock()
-				received = append(received, m)
+				receivedData = append(receivedData, data)
+				w.mtx.Lock()
+				// which injected message is this body? Bodies are unique per injection except for
+				// re-presented copies of a message; among the candidates it is the one that a Recv
+				// critical section took (hook, logged before the call returned) more often than calls
+				// have returned it so far
+				var cands []uint64
+				for _, in := range w.inj {
+					if in.payload == string(data) {
+						cands = append(cands, in.seqno)
+					}
+				}
+				sort.Slice(cands, func(i, j int) bool { return cands[i] < cands[j] })
+				for _, c := range cands {
+					taken, ret := 0, 0
+					for _, l := range w.log {
+						if strings.HasPrefix(l, "ev=recvstep ") && kvOf(l, "tkr") == w.tkr && kvOf(l, "flag") == "true" && kvOf(l, "recv") == fmt.Sprint(c) {
+							taken++
+						}
+					}
+					for _, x := range returnedSeq {
+						if x == c {
+							ret++
+						}
+					}
+					if taken > ret {
+						q = c
+						break
+					}
+				}
+				if q == 0 && len(cands) > 0 {
+					q = cands[0]
+				}
+				w.mtx.Unlock()
+				if q != 0 {
+					returnedSeq = append(returnedSeq, q)
+				}
 				rmtx.Unlock()
 			}
+		} else {
+			m, err := ref.Recv(rctx)
+			if err == nil && m != nil {
+				q = m.GetSeqno()
+				rmtx.Lock()
+				received = append(received, m)
+				returnedSeq = append(returnedSeq, q)
+				rmtx.Unlock()
+			}
+		}
+		rmtx.Lock()
+		recvCalls++
+		if q == 0 {
+			recvCanceled++
+		}
+		rmtx.Unlock()
+		w.note("recvret", q)
+		return q != 0
+	}
+	// recvCtx builds the caller's context: live (deadline `timeout`), cancelled (already cancelled),
+	// expired (deadline in the past), short (deadline a few microseconds away), cancel-soon
+	// (cancelled by a timer a few microseconds after the call started).
+	recvCtx := func(mode string, timeout time.Duration) (context.Context, context.CancelFunc) {
+		switch mode {
+		case "cancelled":
+			c, cc := context.WithCancel(ctx)
+			cc()
+			return c, cc
+		case "expired":
+			return context.WithDeadline(ctx, time.Now().Add(-time.Second))
+		case "short":
+			return context.WithTimeout(ctx, timeout)
+		case "cancel-soon":
+			c, cc := context.WithCancel(ctx)
+			t := time.AfterFunc(timeout, cc)
+			return c, func() { t.Stop(); cc() }
+		}
+		return context.WithTimeout(ctx, timeout)
+	}
+	startRecvMode := func(mode string, timeout time.Duration) chan bool {
+		viaSession := e.rng.Intn(2) == 0 && !forceRef
+		rctx, rcancel := recvCtx(mode, timeout)
+		rmtx.Lock()
+		recvCancels = append(recvCancels, rcancel)
+		rmtx.Unlock()
+		res := make(chan bool, 1)
+		apps.Add(1)
+		recvWG.Add(1)
+		go func() {
+			defer apps.Done()
+			defer recvWG.Done()
+			defer rcancel()
+			res <- recvCall(rctx, viaSession)
 		}()
+		return res
+	}
+	startRecv := func(timeout time.Duration) { startRecvMode("live", timeout) }
+	// anyRecv: a Recv whose caller is drawn from all kinds of callers
+	anyRecv := func(timeout time.Duration) string {
+		mode := "live"
+		switch e.rng.Intn(8) {
+		case 0:
+			mode = "cancelled"
+		case 1:
+			mode = "expired"
+		case 2:
+			mode, timeout = "short", time.Duration(1+e.rng.Intn(300))*time.Microsecond
+		case 3:
+			mode, timeout = "cancel-soon", time.Duration(e.rng.Intn(300))*time.Microsecond
+		}
+		startRecvMode(mode, timeout)
+		return mode
+	}
+	// poller: an application polling Recv `k` times with done / nearly done contexts
+	startPoller := func(mode string, k int) chan int {
+		viaSession := e.rng.Intn(2) == 0 && !forceRef
+		ds := make([]time.Duration, k)
+		gaps := make([]time.Duration, k)
+		for i := range ds {
+			ds[i] = time.Duration(1+e.rng.Intn(200)) * time.Microsecond
+			gaps[i] = time.Duration(e.rng.Intn(120)) * time.Microsecond
+		}
+		res := make(chan int, 1)
+		apps.Add(1)
+		recvWG.Add(1)
+		go func() {
+			defer apps.Done()
+			defer recvWG.Done()
+			got := 0
+			for i := 0; i < k && ctx.Err() == nil; i++ {
+				rctx, rc := recvCtx(mode, ds[i])
+				if recvCall(rctx, viaSession) {
+					got++
+				}
+				rc()
+				if gaps[i] > 0 {
+					time.Sleep(gaps[i])
+				}
+			}
+			res <- got
+		}()
+		return res
 	}
 	var lastAuthentic *signaling.SessionMsg
 	var lastAuthenticMid int
@@ -510,12 +796,133 @@ func (e *engine) scenario(kind string, n int) {
 			w.quiesce(300 * time.Microsecond)
 		}
 	}
-	open := func() {
+	open := func() uint64 {
 		w.mtx.Lock()
 		w.epoch++
 		ep := w.epoch
 		w.mtx.Unlock()
 		w.respond(w.cur(), &signaling.SessionResponse{Body: &signaling.SessionResponse_Opened{Opened: ep}})
+		return ep
+	}
+	setAuto := func(a string) {
+		w.mtx.Lock()
+		w.auto = a
+		w.mtx.Unlock()
+	}
+	// waitDone waits until the Send call has returned and reports whether it returned success
+	waitDone := func(sr *sendRes, d time.Duration) bool {
+		deadline := time.Now().Add(d)
+		for {
+			rmtx.Lock()
+			done, err := sr.done, sr.err
+			rmtx.Unlock()
+			if done || time.Now().After(deadline) {
+				return done && err == nil
+			}
+			time.Sleep(100 * time.Microsecond)
+		}
+	}
+	// startSendCtx: a Send whose caller the scenario cancels itself
+	startSendCtx := func(sctx context.Context) *sendRes {
+		sr := &sendRes{}
+		rmtx.Lock()
+		sends = append(sends, sr)
+		rmtx.Unlock()
+		payload := e.rng.Bytes(4)
+		apps.Add(1)
+		go func() {
+			defer apps.Done()
+			m, err := ref.Send(sctx, payload)
+			rmtx.Lock()
+			sr.err, sr.done = err, true
+			if m != nil {
+				sr.seqno = m.GetSeqno()
+			}
+			rmtx.Unlock()
+		}()
+		return sr
+	}
+	// newOnWire waits for a SendMsg request on the wire that was not there at position `from`
+	newOnWire := func(from int, d time.Duration) uint64 {
+		deadline := time.Now().Add(d)
+		for {
+			w.mtx.Lock()
+			for i := from; i < len(w.wire); i++ {
+				if w.wire[i].kind == "send" {
+					q := w.wire[i].seqno
+					w.mtx.Unlock()
+					return q
+				}
+			}
+			w.mtx.Unlock()
+			if time.Now().After(deadline) {
+				return 0
+			}
+			time.Sleep(50 * time.Microsecond)
+		}
+	}
+	wireLen := func() int {
+		w.mtx.Lock()
+		defer w.mtx.Unlock()
+		return len(w.wire)
+	}
+	// mustRecvs: messages a working relay delivered in an open, undisturbed session with a live
+	// Recv waiting: they must be handed over
+	var mustRecvs []uint64
+	var harnessErr string
+	const hookWait = 15 * time.Second
+	expectHook := func(from int, ev, want string) {
+		if !w.waitHook(from, hookWait, hookIs(ev, want)) && harnessErr == "" {
+			harnessErr = fmt.Sprintf("the client did not process %s(%s) within %v", ev, want, hookWait)
+		}
+	}
+	// disturb delivers a response to the client while one of its writes is parked and waits until
+	// the client has processed it; it returns the description of what was done
+	disturb := func(what string, q uint64) string {
+		from := w.mark()
+		switch what {
+		case "opened":
+			ep := open()
+			expectHook(from, "opened", fmt.Sprint(ep))
+			return fmt.Sprintf("relay delivers Opened(%d), client processed it", ep)
+		case "closed-opened":
+			w.respond(w.cur(), &signaling.SessionResponse{Body: &signaling.SessionResponse_Closed{Closed: true}})
+			expectHook(from, "close", "")
+			w.quiesce(300 * time.Microsecond)
+			from = w.mark()
+			ep := open()
+			expectHook(from, "opened", fmt.Sprint(ep))
+			w.quiesce(300 * time.Microsecond) // a waiting Send re-installs its message
+			return fmt.Sprintf("relay delivers Closed then Opened(%d), client processed both", ep)
+		case "ack":
+			w.respond(w.cur(), &signaling.SessionResponse{Body: &signaling.SessionResponse_AckMsg{AckMsg: q}})
+			expectHook(from, "ackmsg", fmt.Sprint(q))
+			w.quiesce(300 * time.Microsecond)
+			return fmt.Sprintf("relay delivers Ack(%d), client processed it", q)
+		case "clear":
+			w.respond(w.cur(), &signaling.SessionResponse{Body: &signaling.SessionResponse_ClearMsg{ClearMsg: q}})
+			expectHook(from, "clearmsg", fmt.Sprint(q))
+			return fmt.Sprintf("relay delivers Clear(%d), client processed it", q)
+		}
+		return "nothing"
+	}
+	// serveProbe: after a disturbance the relay is honest again: a Send must complete and a
+	// delivered message must reach a waiting Recv
+	serveProbe := func() bool {
+		setAuto("ack")
+		sr := startSendOpt(10*time.Second, true)
+		ok := waitDone(sr, 12*time.Second)
+		from := w.mark()
+		inject("authentic") // replaces whatever was pending
+		mustRecvs = append(mustRecvs, nextInj)
+		expectHook(from, "recvmsg", fmt.Sprint(nextInj))
+		res := startRecvMode("live", 5*time.Second)
+		select {
+		case <-res:
+		case <-time.After(6 * time.Second):
+		}
+		w.quiesce(300 * time.Microsecond)
+		return ok
 	}
 	// freshStream waits until the client has replaced the stream `old` (after a failure / a rejected message)
 	freshStream := func(old *relayStream) {
@@ -533,10 +940,13 @@ func (e *engine) scenario(kind string, n int) {
 		for i := 0; i < n; i++ {
 			startSendOpt(10*time.Second, true)
 			startRecv(400 * time.Millisecond)
+			if e.rng.Intn(2) == 0 {
+				anyRecv(400 * time.Millisecond)
+			}
 			inject("authentic")
 			jitter()
 		}
-		act("honest relay: open, ack every send, deliver authentic messages")
+		act("honest relay: open, ack every send, deliver authentic messages (Recv callers of all kinds)")
 	case "reopen-in-flight":
 		// F11 sentinel: Opened(e+1) arrives while Send's message is pending; then it is acked
 		progress = true
@@ -682,6 +1092,268 @@ func (e *engine) scenario(kind string, n int) {
 			w.quiesce(300 * time.Microsecond)
 		}
 		act("rounds of: Send(m) parked before its select; relay acks m; caller cancelled; then a probe Send that the relay never acks")
+	case "recv-cancelled":
+		// C21: Recv callers whose context is done. A message is pending and the application calls Recv
+		// with an already cancelled / expired context; a waiting caller is cancelled concurrently with
+		// the delivery; applications poll with deadlines of a few microseconds. Whatever a call does, a
+		// message may be marked processed (= acknowledged to the sender) only by a call that RETURNS it.
+		progress = true
+		setAuto("ack")
+		open()
+		w.quiesce(300 * time.Microsecond)
+		for i := 0; i < n; i++ {
+			modes := []string{"pending|cancelled", "pending|expired", "concurrent-cancel", "poll-short", "poll-cancelled"}
+			mode := modes[i%len(modes)]
+			if i >= len(modes) {
+				mode = modes[e.rng.Intn(len(modes))]
+			}
+			switch mode {
+			case "pending|cancelled", "pending|expired":
+				from := w.mark()
+				inject("authentic")
+				q := nextInj
+				expectHook(from, "recvmsg", fmt.Sprint(q))
+				if e.rng.Intn(2) == 0 {
+					startSendOpt(10*time.Second, true)
+				}
+				cm := strings.TrimPrefix(mode, "pending|")
+				got := <-startRecvMode(cm, 0)
+				again := <-startRecvMode(cm, 0) // nothing pending any more: this one returns Canceled
+				act(fmt.Sprintf("relay delivers message %d, client accepted it (pending); application calls Recv with an already %s context (returned the message: %v); calls it again (returned a message: %v)", q, cm, got, again))
+			case "concurrent-cancel":
+				rctx, rc := context.WithCancel(ctx)
+				rmtx.Lock()
+				recvCancels = append(recvCancels, rc)
+				rmtx.Unlock()
+				viaSession := e.rng.Intn(2) == 0
+				res := make(chan bool, 1)
+				apps.Add(1)
+				recvWG.Add(1)
+				go func() {
+					defer apps.Done()
+					defer recvWG.Done()
+					res <- recvCall(rctx, viaSession)
+				}()
+				w.quiesce(300 * time.Microsecond) // the caller waits
+				d1 := time.Duration(e.rng.Intn(80)) * time.Microsecond
+				d2 := time.Duration(e.rng.Intn(80)) * time.Microsecond
+				var both sync.WaitGroup
+				both.Add(1)
+				go func() { defer both.Done(); time.Sleep(d1); rc() }()
+				time.Sleep(d2)
+				inject("authentic")
+				q := nextInj
+				both.Wait()
+				got := <-res
+				act(fmt.Sprintf("a Recv is waiting; its context is cancelled (after %v) while the relay delivers message %d (after %v): the call returned the message: %v", d1, q, d2, got))
+				w.quiesce(300 * time.Microsecond)
+				if !got {
+					// the message is still pending: a later caller gets it
+					<-startRecvMode("live", 5*time.Second)
+				}
+			case "poll-short", "poll-cancelled":
+				pm := "short"
+				if mode == "poll-cancelled" {
+					pm = []string{"cancelled", "expired"}[e.rng.Intn(2)]
+				}
+				k := 30 + e.rng.Intn(30)
+				res := startPoller(pm, k)
+				nm := 2 + e.rng.Intn(3)
+				for j := 0; j < nm; j++ {
+					time.Sleep(time.Duration(e.rng.Intn(400)) * time.Microsecond)
+					inject("authentic")
+					if e.rng.Intn(3) == 0 {
+						startSendOpt(10*time.Second, true)
+					}
+				}
+				got := <-res
+				act(fmt.Sprintf("application polls Recv %d times with %s contexts while the relay delivers %d messages: %d returned", k, pm, nm, got))
+			}
+			w.quiesce(300 * time.Microsecond)
+		}
+	case "reopen-during-write":
+		// C23: the client's SendMsg write is parked (the main loop has picked the message and is
+		// inside the stream's Send); the relay announces a re-open (or Closed + re-open, or the ack)
+		// and waits until the client has processed it; the write is released; the honest relay drops
+		// the stale-epoch request. The pending Send must complete (re-transmission in the new epoch).
+		progress = true
+		setAuto("ack")
+		open()
+		w.quiesce(300 * time.Microsecond)
+		for i := 0; i < n; i++ {
+			kinds := []string{"opened", "closed-opened", "ack"}
+			what := kinds[i%len(kinds)]
+			if i >= len(kinds) {
+				what = kinds[e.rng.Intn(len(kinds))]
+			}
+			g := w.armGate("send")
+			sr := startSendOpt(10*time.Second, true)
+			if !g.waitHeld(hookWait) {
+				w.disarm(g)
+				if harnessErr == "" {
+					harnessErr = "the client never started to write the SendMsg request"
+				}
+				break
+			}
+			q := g.req.GetSendMsg().GetSeqno()
+			ep0 := g.req.GetSessionSeqno()
+			did := disturb(what, q)
+			g.open()
+			ok := waitDone(sr, 12*time.Second)
+			act(fmt.Sprintf("Send(%d): the client's SendMsg write (epoch %d) is held; %s; the write is released (honest relay: stale-epoch requests are dropped, current ones acknowledged); Send completed: %v", q, ep0, did, ok))
+			w.quiesce(300 * time.Microsecond)
+			if !ok {
+				break
+			}
+		}
+		if harnessErr == "" {
+			startSendOpt(10*time.Second, true) // a later send must not be blocked
+			act("one more Send")
+		}
+	case "gated-writes":
+		// the same for every request kind and both directions: a write of kind send / ack / clear is
+		// parked while the relay delivers Opened / Closed+Opened / Ack / Clear (each awaited by hook
+		// event), or a response is withheld until the client has done something (cancelled a Send);
+		// afterwards the relay is honest and a probe Send and a probe delivery must complete
+		progress = true
+		open()
+		w.quiesce(300 * time.Microsecond)
+		rounds := []string{"send|opened", "ack|opened", "clear|opened", "resp|opened-after-send", "ack|closed-opened", "clear|ack", "ack|cancel+ack", "resp|ack-after-clear",
+			"send|closed-opened", "ack|clear", "clear|closed-opened", "send|ack", "resp|closed-after-send"}
+		for i := 0; i < n; i++ {
+			round := rounds[i%len(rounds)]
+			if i >= len(rounds) {
+				round = rounds[e.rng.Intn(len(rounds))]
+			}
+			parts := strings.SplitN(round, "|", 2)
+			kind, what := parts[0], parts[1]
+			bad := false
+			switch kind {
+			case "send":
+				setAuto("ack")
+				g := w.armGate("send")
+				sr := startSendOpt(10*time.Second, true)
+				if !g.waitHeld(hookWait) {
+					w.disarm(g)
+					bad = true
+					break
+				}
+				q := g.req.GetSendMsg().GetSeqno()
+				did := disturb(what, q)
+				g.open()
+				ok := waitDone(sr, 12*time.Second)
+				act(fmt.Sprintf("Send(%d): SendMsg write held; %s; write released; Send completed: %v", q, did, ok))
+				bad = !ok
+			case "ack":
+				// the client acknowledges a delivered message: the AckMsg write is parked
+				setAuto("")
+				var sr *sendRes
+				var sc context.CancelFunc
+				var sq uint64
+				if what == "cancel+ack" {
+					// a Send is in flight (transmitted, not acknowledged) before the ack write is parked
+					var sctx context.Context
+					sctx, sc = context.WithCancel(ctx)
+					from := wireLen()
+					sr = startSendCtx(sctx)
+					sq = newOnWire(from, hookWait)
+				}
+				g := w.armGate("ack")
+				from := w.mark()
+				inject("authentic")
+				q := nextInj
+				expectHook(from, "recvmsg", fmt.Sprint(q))
+				res := startRecvMode("live", 5*time.Second)
+				if !g.waitHeld(hookWait) {
+					w.disarm(g)
+					if sc != nil {
+						sc()
+					}
+					bad = true
+					break
+				}
+				<-res
+				var did string
+				if what == "cancel+ack" {
+					// the caller gives up while the main loop is parked in the ack write; then the relay
+					// acknowledges the withdrawn message before the client could send its clear
+					from := w.mark()
+					sc()
+					expectHook(from, "sendcancel", fmt.Sprint(sq))
+					waitDone(sr, hookWait)
+					did = fmt.Sprintf("the caller of the in-flight Send(%d) gives up; ", sq) + disturb("ack", sq)
+				} else {
+					did = disturb(what, q)
+				}
+				g.open()
+				if sc != nil {
+					sc()
+				}
+				act(fmt.Sprintf("relay delivers message %d, application receives it; the client's AckMsg write is held; %s; write released", q, did))
+			case "resp":
+				// the other direction: a response of the relay is withheld until the client has got to a
+				// chosen point (observed on the wire / by hook event)
+				switch what {
+				case "opened-after-send", "closed-after-send":
+					// the relay has the message (epoch n) and, before acknowledging it, announces a re-open
+					setAuto("skip-one")
+					from := wireLen()
+					sr := startSendOpt(10*time.Second, true)
+					q := newOnWire(from, hookWait)
+					did := disturb(map[string]string{"opened-after-send": "opened", "closed-after-send": "closed-opened"}[what], q)
+					ok := waitDone(sr, 12*time.Second)
+					act(fmt.Sprintf("Send(%d) is on the wire, not acknowledged; %s; the relay serves the re-transmission; Send completed: %v", q, did, ok))
+					bad = q == 0 || !ok
+				case "ack-after-clear":
+					// the acknowledgement of a withdrawn message arrives after the client's ClearMsg
+					setAuto("")
+					sctx, sc := context.WithCancel(ctx)
+					from := wireLen()
+					sr := startSendCtx(sctx)
+					q := newOnWire(from, hookWait)
+					mk := w.mark()
+					sc()
+					expectHook(mk, "sendcancel", fmt.Sprint(q))
+					waitDone(sr, hookWait)
+					if !w.waitHook(mk, hookWait, func(l string) bool { return strings.HasPrefix(l, "ev=txloop ") && kvOf(l, "cancelmsg") == fmt.Sprint(q) }) {
+						bad = true
+					}
+					w.quiesce(300 * time.Microsecond)
+					did := disturb("ack", q)
+					act(fmt.Sprintf("Send(%d) transmitted, caller gives up, the client sent its ClearMsg; only then: %s", q, did))
+				}
+			case "clear":
+				// a Send is transmitted, never acknowledged, its caller gives up: the ClearMsg write is parked
+				setAuto("")
+				sctx, sc := context.WithCancel(ctx)
+				from := wireLen()
+				sr := startSendCtx(sctx)
+				q := newOnWire(from, hookWait)
+				g := w.armGate("clear")
+				sc()
+				if q == 0 || !g.waitHeld(hookWait) {
+					w.disarm(g)
+					bad = true
+					break
+				}
+				waitDone(sr, hookWait)
+				did := disturb(what, q)
+				g.open()
+				act(fmt.Sprintf("Send(%d) transmitted, never acknowledged, caller gives up; the client's ClearMsg write is held; %s; write released", q, did))
+			}
+			w.quiesce(300 * time.Microsecond)
+			if bad {
+				if harnessErr == "" {
+					harnessErr = "gated round " + round + " did not reach its gate or its Send did not complete"
+				}
+				act("round " + round + " incomplete")
+				break
+			}
+			if !serveProbe() {
+				act("the probe Send after round " + round + " did not complete")
+				break
+			}
+		}
 	case "altered-retransmission":
 		// an authentic message is delivered; the relay then presents the same signature and
 		// sender again with another payload (looks like the retransmission after a re-open)
@@ -795,8 +1467,7 @@ func (e *engine) scenario(kind string, n int) {
 				startSend(time.Duration(1+e.rng.Intn(5)) * time.Millisecond)
 				act("send (short deadline)")
 			case 10:
-				startRecv(300 * time.Millisecond)
-				act("recv")
+				act("recv (" + anyRecv(300*time.Millisecond) + " caller)")
 			case 11:
 				if r := w.cur(); r != nil && e.rng.Intn(3) == 0 {
 					r.failNow()
@@ -841,6 +1512,31 @@ func (e *engine) scenario(kind string, n int) {
 		}
 		w.quiesce(2 * time.Millisecond)
 	}
+	// no write stays parked, and every Recv call of the scenario has returned before the verdict:
+	// the callers still waiting are cancelled (a cancelled caller that finds nothing returns Canceled)
+	w.mtx.Lock()
+	if g := w.gate; g != nil {
+		w.gate = nil
+		g.open()
+	}
+	w.mtx.Unlock()
+	rmtx.Lock()
+	for _, c := range recvCancels {
+		c()
+	}
+	rmtx.Unlock()
+	recvStuck := false
+	{
+		fin := make(chan struct{})
+		go func() { recvWG.Wait(); close(fin) }()
+		select {
+		case <-fin:
+			w.note("recvend", 0)
+		case <-time.After(10 * time.Second):
+			recvStuck = true
+		}
+	}
+	w.quiesce(2 * time.Millisecond)
 	// A verdict is taken at quiescence; if a monitor fires or the replay diverges, settle longer and
 	// evaluate everything again (what is reported is what persists on the complete log).
 	var trace, op, model, mon, key string
@@ -936,11 +1632,25 @@ func (e *engine) scenario(kind string, n int) {
 				}
 			}
 		}
-		recvSteps := 0
+		// C21 (receiver's half): a message is marked processed — and thereby acknowledged to its
+		// sender — only by a Recv call that RETURNS it (nil error) to the application. Every Recv call
+		// has returned by now, so the messages taken by Recv critical sections (hook: recvstep with
+		// flag=true; its snapshot names the message) must be exactly the messages the calls returned.
+		if recvStuck {
+			set(3, "sigcli.recv:stuck", "a Recv call did not return within 10 s after its context was cancelled")
+		}
+		takenCnt := map[uint64]int{}
+		var takenOrder []uint64
 		for _, line := range w.linesLocked() {
 			if strings.HasPrefix(line, "ev=recvstep ") && kvOf(line, "flag") == "true" {
-				recvSteps++
+				q, _ := strconv.ParseUint(kvOf(line, "recv"), 10, 64)
+				takenCnt[q]++
+				takenOrder = append(takenOrder, q)
 			}
+		}
+		retCnt := map[uint64]int{}
+		for _, q := range returnedSeq {
+			retCnt[q]++
 		}
 		sentBefore := map[[2]uint64]bool{} // (stream, seqno)
 		for _, x := range w.wire {
@@ -955,9 +1665,9 @@ func (e *engine) scenario(kind string, n int) {
 				}
 			case "ack":
 				onWire = append(onWire, fmt.Sprintf("ack:%d:%d", x.epoch, x.seqno))
-				// every Recv call that took a message has returned by now (recvSteps == deliveries recorded)
-				if recvSteps == len(received)+len(receivedData) && !deliveredSeq[x.seqno] {
-					set(3, "sigcli.wire:ack-undelivered", fmt.Sprintf("the client acknowledged message %d, which its application never received", x.seqno))
+				// every Recv call has returned by now: deliveredSeq is everything the application was handed
+				if !recvStuck && !deliveredSeq[x.seqno] {
+					set(3, "sigcli.wire:ack-undelivered", fmt.Sprintf("the client acknowledged message %d to its sender, but no Recv call ever returned that message to the application (%d of %d Recv calls returned context.Canceled)", x.seqno, recvCanceled, recvCalls))
 				}
 			case "clear":
 				onWire = append(onWire, fmt.Sprintf("clear:%d:%d", x.epoch, x.seqno))
@@ -971,6 +1681,19 @@ func (e *engine) scenario(kind string, n int) {
 				onWire = append(onWire, "other")
 			}
 		}
+		if !recvStuck {
+			for _, q := range takenOrder {
+				if takenCnt[q] > retCnt[q] {
+					set(3, "sigcli.recv:taken-not-returned", fmt.Sprintf("a Recv critical section took message %d and marked it processed (so it is acknowledged to its sender) but no Recv call returned it to the application (%d of %d Recv calls returned context.Canceled)", q, recvCanceled, recvCalls))
+					break
+				}
+			}
+			for q, c := range retCnt {
+				if c > takenCnt[q] {
+					set(3, "sigcli.recv:returned-not-taken", fmt.Sprintf("a Recv call returned message %d more often (%d) than Recv critical sections took it (%d)", q, c, takenCnt[q]))
+				}
+			}
+		}
 		if strings.Join(onWire, ";") != strings.Join(decided, ";") {
 			set(2, "sigcli.wire:mismatch", fmt.Sprintf("the requests the client put on the wire [%s] are not the requests its main loop decided on [%s] (an ack/clear/send naming another message or epoch)", lib.Trunc(strings.Join(onWire, ";")), lib.Trunc(strings.Join(decided, ";"))))
 		}
@@ -978,6 +1701,11 @@ func (e *engine) scenario(kind string, n int) {
 			for _, s := range sends {
 				if s.must && (!s.done || s.err != nil) {
 					set(3, "sigcli.progress:"+kind, "with a working relay (session open, sends acknowledged) a pending Send did not succeed: "+fmt.Sprint(s.err))
+				}
+			}
+			for _, q := range mustRecvs {
+				if !deliveredSeq[q] {
+					set(3, "sigcli.progress-recv:"+kind, fmt.Sprintf("message %d, delivered by a working relay in an open session, was not handed to the application although a Recv was waiting", q))
 				}
 			}
 		}
@@ -999,7 +1727,7 @@ func (e *engine) scenario(kind string, n int) {
 	br := "trace." + kind
 	e.rep.Case("sigc.trace["+kind+"] "+strings.Join(actions, "; "), mshort, impl, br, true)
 	if mshort != impl || mon != "" {
-		d := lib.Disagreement{Op: lib.Trunc(strings.Join(actions, "; ")) + " || " + op, Model: model, Impl: impl, Branch: br, Key: key}
+		d := lib.Disagreement{Op: truncN(strings.Join(actions, "; "), 3000) + " || " + op, Model: model, Impl: impl, Branch: br, Key: key}
 		if len(d.Op) > 6000 {
 			d.Op = d.Op[:6000] + "…"
 		}
@@ -1009,6 +1737,11 @@ func (e *engine) scenario(kind string, n int) {
 			d.Monitor, d.What = "unconfirmed", "the real client took a step that is not a step of the model: "+lib.Trunc(model)
 		}
 		e.rep.Disagree(d)
+	} else if harnessErr != "" {
+		// the scripted schedule could not be driven (a gate was not reached, an awaited hook event did
+		// not come): the tie did not exercise what it is there for
+		e.rep.Disagree(lib.Disagreement{Op: truncN(strings.Join(actions, "; "), 3000), Model: mshort, Impl: impl, Branch: br, Key: "sigcli.schedule:" + kind,
+			Monitor: "unconfirmed", What: "the scripted schedule could not be driven on the real client: " + harnessErr})
 	}
 	e.rep.Extra["events"] = e.rep.Extra["events"].(int) + strings.Count(trace, ";") + 1
 	e.rep.Extra["sends_ok"] = e.rep.Extra["sends_ok"].(int) + okSends
@@ -1018,7 +1751,12 @@ func (e *engine) scenario(kind string, n int) {
 	rmtx.Unlock()
 	w.mtx.Lock()
 	e.rep.Extra["wire_requests"] = e.rep.Extra["wire_requests"].(int) + len(w.wire)
+	e.rep.Extra["stale_requests_dropped_by_honest_relay"] = e.rep.Extra["stale_requests_dropped_by_honest_relay"].(int) + w.dropped
 	w.mtx.Unlock()
+	rmtx.Lock()
+	e.rep.Extra["recv_calls"] = e.rep.Extra["recv_calls"].(int) + recvCalls
+	e.rep.Extra["recv_calls_returned_canceled"] = e.rep.Extra["recv_calls_returned_canceled"].(int) + recvCanceled
+	rmtx.Unlock()
 	cancel()
 	cl.ClearContext()
 	// the application goroutines of this scenario end with its context
@@ -1041,6 +1779,14 @@ func (w *world) linesLocked() []string {
 	return out
 }
 
+// truncN shortens a schedule description for the replay.
+func truncN(s string, n int) string {
+	if len(s) > n {
+		return s[:n] + "…"
+	}
+	return s
+}
+
 func classOf(in *injected) string {
 	if in == nil {
 		return "?"
@@ -1049,11 +1795,15 @@ func classOf(in *injected) string {
 }
 
 func (e *engine) run() {
-	e.rep.Rule = "the real signaling client against a scripted relay: honest (open, ack, deliver), re-open while a send is in flight (F11 sentinel), the sender's stream failing with a message in flight, a 1 ms Send followed by a served Send, ack racing the caller's cancellation followed by a never-acknowledged probe Send, an authentic message followed by its signature re-presented with another payload, every forgery class with the application waiting (third-party / tampered / altered-copy / claimed-sender / self-signed; hand-assembled: foreign key attached, victim key attached + foreign signature, other signing context, empty signature, unsigned, nil body, empty body, no sender), an authentic message with only its outer sequence number rewritten, malicious random schedules of all of these with unsolicited acks and clears, re-opens, closes, stream failures and concurrent Send (incl. short deadlines = cancel) and Recv calls (half of them through Session.Recv); every tracker critical section replayed on the Lean LTS with the harness's own verdict per message; wire requests compared with the main loop's decisions; distinct = distinct schedule"
-	e.rep.Require("trace.honest", "trace.reopen-in-flight", "trace.malicious", "trace.cancel-after-ack", "trace.altered-retransmission", "trace.forgery-classes", "trace.stream-failure-in-flight", "trace.cancel-then-send")
-	for _, k := range []string{"events", "sends_ok", "delivered", "delivered_via_session", "wire_requests"} {
+	e.rep.Rule = "the real signaling client against a scripted relay: honest (open, ack, deliver), re-open while a send is in flight (F11 sentinel), the sender's stream failing with a message in flight, a 1 ms Send followed by a served Send, ack racing the caller's cancellation followed by a never-acknowledged probe Send, an authentic message followed by its signature re-presented with another payload, every forgery class with the application waiting (third-party / tampered / altered-copy / claimed-sender / self-signed; hand-assembled: foreign key attached, victim key attached + foreign signature, other signing context, empty signature, unsigned, nil body, empty body, no sender), an authentic message with only its outer sequence number rewritten, malicious random schedules of all of these with unsolicited acks and clears, re-opens, closes, stream failures and concurrent Send (incl. short deadlines = cancel) and Recv calls (half of them through Session.Recv); Recv CALLERS of every kind (long-lived, already cancelled, past their deadline, cancelled concurrently with a delivery, polling with deadlines of a few microseconds) with every call's return value logged into the trace (recvret / recvend) and all calls awaited before the verdict; GATED WRITES: the client's write of a chosen request kind (send / ack / clear) is parked inside the stream's Send while the relay delivers Opened / Closed+Opened / Ack / Clear and waits by hook event until the client processed it, then released into an honest relay that drops stale-epoch requests (reopen-during-write, gated-writes), each followed by a probe Send and a probe delivery that must complete; every tracker critical section replayed on the Lean LTS with the harness's own verdict per message; wire requests compared with the main loop's decisions; acks on the wire and messages taken by Recv critical sections compared with what Recv calls RETURNED; distinct = distinct schedule"
+	e.rep.Require("trace.honest", "trace.reopen-in-flight", "trace.malicious", "trace.cancel-after-ack", "trace.altered-retransmission", "trace.forgery-classes", "trace.stream-failure-in-flight", "trace.cancel-then-send",
+		"trace.recv-cancelled", "trace.reopen-during-write", "trace.gated-writes")
+	for _, k := range []string{"events", "sends_ok", "delivered", "delivered_via_session", "wire_requests", "recv_calls", "recv_calls_returned_canceled", "stale_requests_dropped_by_honest_relay"} {
 		e.rep.Extra[k] = 0
 	}
+	e.scenario("reopen-during-write", 3)
+	e.scenario("recv-cancelled", 5)
+	e.scenario("gated-writes", 13)
 	e.scenario("reopen-in-flight", 1)
 	e.scenario("cancel-after-ack", 4)
 	e.scenario("altered-retransmission", 3)
@@ -1076,6 +1826,9 @@ func (e *engine) run() {
 			e.scenario("forgery-classes", 1)
 			e.scenario("stream-failure-in-flight", 1+e.rng.Intn(3))
 			e.scenario("cancel-then-send", 1+e.rng.Intn(4))
+			e.scenario("recv-cancelled", 3+e.rng.Intn(8))
+			e.scenario("reopen-during-write", 2+e.rng.Intn(5))
+			e.scenario("gated-writes", 5+e.rng.Intn(12))
 		}
 	}
 }
